@@ -10,6 +10,7 @@ package nsqd
 
 import (
 	"fmt"
+	"net"
 	"os"
 	"strings"
 	"sync/atomic"
@@ -102,6 +103,12 @@ func TestVerifE5Replay(t *testing.T) {
 	switch name {
 	case "f7_empty_stale_index", "f7_unrelated_removed", "f7_req_empty", "f7_touch_empty":
 		vfE5ReplayF7(t, name)
+	case "f9_pump_holds":
+		vfE5ReplayF9Pump(t, name)
+	case "f9_put_after_exit_check":
+		vfE5ReplayF9Put(t, name)
+	case "orphan_resurrect":
+		vfE5ReplayOrphan(t, name)
 	case "dq_bad_file_after_delete":
 		vfE5ReplayBadFile(t, name)
 	default:
@@ -203,4 +210,187 @@ func vfE5ReplayBadFile(t *testing.T, name string) {
 	}
 	fmt.Printf("E5REPLAY %s delivered=%d delete_err=%v left=%s\n", name, got, err, strings.Join(left, ","))
 	n.Exit()
+}
+
+// A durable channel under an ephemeral topic has a real disk queue.  The topic is not written to
+// the metadata, so after a restart nobody owns the channel's files; creating the same names again
+// re-opens them: the "new" channel starts with the old backlog.
+func vfE5ReplayOrphan(t *testing.T, name string) {
+	dir := t.TempDir()
+	opts := vfE5Opts(dir)
+	opts.MemQueueSize = 1
+	n, err := New(opts)
+	if err != nil {
+		t.Fatal(err)
+	}
+	n.LoadMetadata()
+	go n.Main()
+	topic := n.GetTopic("e#ephemeral")
+	ch := topic.GetChannel("c")
+	for i := 1; i <= 3; i++ {
+		topic.PutMessage(NewMessage(topic.GenerateID(), []byte("x")))
+	}
+	for d := time.Now().Add(5 * time.Second); ch.Depth() < 3 && time.Now().Before(d); {
+		time.Sleep(time.Millisecond)
+	}
+	before := ch.Depth()
+	n.Exit()
+	n2, err := New(vfE5OptsLike(opts, dir))
+	if err != nil {
+		t.Fatal(err)
+	}
+	n2.LoadMetadata()
+	go n2.Main()
+	_, terr := n2.GetExistingTopic("e#ephemeral")
+	var left []string
+	ents, _ := os.ReadDir(dir)
+	for _, e := range ents {
+		if strings.HasPrefix(e.Name(), "e#ephemeral") {
+			left = append(left, e.Name())
+		}
+	}
+	ch2 := n2.GetTopic("e#ephemeral").GetChannel("c")
+	fmt.Printf("E5REPLAY %s depth_before_exit=%d topic_after_restart=%v files=%s recreated_depth=%d\n", name, before,
+		terr == nil, strings.Join(left, ","), ch2.Depth())
+	n2.Exit()
+}
+
+func vfE5OptsLike(o *Options, dir string) *Options {
+	opts := vfE5Opts(dir)
+	opts.MemQueueSize = o.MemQueueSize
+	opts.MaxBytesPerFile = o.MaxBytesPerFile
+	return opts
+}
+
+// vfE5Restart: New on the same data path + LoadMetadata (+ Main), as apps/nsqd does.
+func vfE5Restart(t *testing.T, old *Options, dir string) *NSQD {
+	n2, err := New(vfE5OptsLike(old, dir))
+	if err != nil {
+		t.Fatal(err)
+	}
+	if err := n2.LoadMetadata(); err != nil {
+		t.Fatal(err)
+	}
+	n2.PersistMetadata()
+	go n2.Main()
+	return n2
+}
+
+func vfE5TotalDepth(n *NSQD, topic string, channels ...string) int64 {
+	tp, err := n.GetExistingTopic(topic)
+	if err != nil {
+		return -1
+	}
+	// let the reloaded topic queue reach the channels, then add everything up
+	for d := time.Now().Add(300 * time.Millisecond); time.Now().Before(d); {
+		time.Sleep(5 * time.Millisecond)
+	}
+	total := tp.Depth()
+	for _, c := range channels {
+		if ch, err := tp.GetExistingChannel(c); err == nil {
+			total += ch.Depth()
+		}
+	}
+	return total
+}
+
+// F9 (a): the consumer's messagePump has received m from the channel queue and is parked before
+// StartInFlightTimeout (proto.pump.afterRecv); NSQD.Exit() runs to completion (flush sees neither
+// queue nor in-flight map containing m); the pump continues.  After a restart m is gone although
+// its publish had been acknowledged and it was never delivered.
+func vfE5ReplayF9Pump(t *testing.T, name string) {
+	dir := t.TempDir()
+	opts := vfE5Opts(dir)
+	opts.MemQueueSize = 10
+	opts.ClientTimeout = 60 * time.Second
+	n, err := New(opts)
+	if err != nil {
+		t.Fatal(err)
+	}
+	n.LoadMetadata()
+	go n.Main()
+	topic := n.GetTopic("f9")
+	ch := topic.GetChannel("c")
+	acked := topic.PutMessage(NewMessage(topic.GenerateID(), []byte("m"))) == nil
+	for d := time.Now().Add(5 * time.Second); ch.Depth() < 1 && time.Now().Before(d); {
+		time.Sleep(time.Millisecond)
+	}
+	g := vfE5NewGate("proto.pump.afterRecv")
+	conn, err := net.DialTimeout("tcp", n.RealTCPAddr().String(), 2*time.Second)
+	if err != nil {
+		t.Fatal(err)
+	}
+	conn.Write([]byte("  V2"))
+	conn.Write([]byte("SUB f9 c\n"))
+	conn.Write([]byte("RDY 1\n"))
+	g.wait(t)
+	exit := vfE5Try(10*time.Second, func() { n.Exit() })
+	close(g.release)
+	// the pump now registers m in the in-flight map of the closed channel and fails to send it
+	for d := time.Now().Add(2 * time.Second); time.Now().Before(d); {
+		ch.inFlightMutex.Lock()
+		k := len(ch.inFlightMessages)
+		ch.inFlightMutex.Unlock()
+		if k > 0 {
+			break
+		}
+		time.Sleep(time.Millisecond)
+	}
+	conn.Close()
+	n2 := vfE5Restart(t, opts, dir)
+	depth := vfE5TotalDepth(n2, "f9", "c")
+	fmt.Printf("E5REPLAY %s acked=%v exit=%s depth_after_restart=%d lost=%v\n", name, acked, exit, depth, acked && depth == 0)
+	n2.Exit()
+}
+
+// F9 (b): a publisher has passed the exitFlag test in Topic.PutMessage and is parked
+// (topic.put.afterExitCheck); NSQD.Exit() flushes and closes the topic; the publisher's send then
+// lands in the topic's memory channel and PutMessage returns nil (acknowledged).  After a restart
+// the message is gone.
+func vfE5ReplayF9Put(t *testing.T, name string) {
+	dir := t.TempDir()
+	opts := vfE5Opts(dir)
+	opts.MemQueueSize = 10
+	n, err := New(opts)
+	if err != nil {
+		t.Fatal(err)
+	}
+	n.LoadMetadata()
+	go n.Main()
+	topic := n.GetTopic("f9")
+	topic.GetChannel("c")
+	// the creation notifications persist the metadata asynchronously: wait for them, so that the
+	// only PersistMetadata still to come is the one inside Exit
+	for d := time.Now().Add(5 * time.Second); time.Now().Before(d); {
+		b, _ := os.ReadFile(dir + "/nsqd.dat")
+		if strings.Contains(string(b), `"name":"c"`) {
+			break
+		}
+		time.Sleep(time.Millisecond)
+	}
+	time.Sleep(20 * time.Millisecond)
+	// Exit is held right after its PersistMetadata (NSQD lock held, topics not yet closed) ...
+	ge := vfE5NewGate("meta.persist.afterRename")
+	exitRes := make(chan string, 1)
+	go func() { exitRes <- vfE5Try(10*time.Second, func() { n.Exit() }) }()
+	ge.wait(t)
+	// ... a publisher passes the exitFlag test and is parked ...
+	g := vfE5NewGate("topic.put.afterExitCheck")
+	res := make(chan error, 1)
+	go func() { res <- topic.PutMessage(NewMessage(topic.GenerateID(), []byte("m"))) }()
+	g.wait(t)
+	// ... Exit closes and flushes the topic, then the publisher's queue write happens
+	close(ge.release)
+	exit := <-exitRes
+	close(g.release)
+	var perr error
+	select {
+	case perr = <-res:
+	case <-time.After(5 * time.Second):
+		perr = fmt.Errorf("publisher blocked")
+	}
+	n2 := vfE5Restart(t, opts, dir)
+	depth := vfE5TotalDepth(n2, "f9", "c")
+	fmt.Printf("E5REPLAY %s acked=%v exit=%s depth_after_restart=%d lost=%v\n", name, perr == nil, exit, depth, perr == nil && depth == 0)
+	n2.Exit()
 }
